@@ -103,12 +103,20 @@ Definition bstep_gen := bstep apply_command_forwarding.
 Definition brun_gen := brun apply_command_forwarding.
 
 (* ---- scripts (the alphabet of Model/Tracker.v) *)
-Definition bexpand (o : sop) : list bevent :=
+(* an ended session tells the server task with the generated kind of notice (Gen/ServerForward.v session_close_notice):
+   `send(..).await` always arrives (SessionEnded: the record is removed); a `try_send` notice may be dropped when the
+   server's queue is full, and then nothing ever removes that record *)
+Definition close_notice_events (n : close_notice) (k : N) : list event :=
+  match n with NoticeSendAwait => [SessionEnded k] | NoticeTrySend => [] end.
+
+Definition bexpand_with (n : close_notice) (o : sop) : list bevent :=
   match o with
   | Park k => [BPark k]
   | Release => [BRelease]
+  | ClientClose k | Garbage k => map BBase (PeerGone k :: close_notice_events n k)
   | _ => map BBase (expand o)
   end.
+Definition bexpand := bexpand_with session_close_notice.
 
 (* the sockets that are open: sessions the tracker holds, and sessions it dropped while they were busy *)
 Definition open_sockets (c : bserver) : list N :=
